@@ -28,6 +28,8 @@ class Injector:
         self.codes = []
         self.sites = set()
         self.trace = None
+        self.sigfn = None
+        self.sigs = None
         mon.use_tool_id(TOOL, 'rv-sched')
         mon.register_callback(TOOL, mon.events.LINE, self._line)
         mon.register_callback(TOOL, mon.events.INSTRUCTION, self._instr)
@@ -59,6 +61,8 @@ class Injector:
         self.count += 1
         if self.trace is not None:
             self.trace.append((code.co_filename, code.co_name, lineno))
+        if self.sigfn is not None:
+            self.sigs.append(self.sigfn())
         if self.count == self.target:
             self._fire(code, lineno)
 
@@ -118,6 +122,17 @@ class Injector:
             return self.trace
         finally:
             self.trace = None
+
+    def state_change_events(self, A, sigfn):
+        """indices k (1-based) of the LINE events of A before which `sigfn()` (a cheap signature of some shared containers)
+        changed, i.e. the statement executed just before event k wrote shared state"""
+        self.sigfn, self.sigs = sigfn, []
+        try:
+            self.run(A, lambda: None, -1, 'line')
+            sg = self.sigs
+        finally:
+            self.sigfn, self.sigs = None, None
+        return [i + 1 for i in range(1, len(sg)) if sg[i] != sg[i - 1]]
 
     def events_in(self, A, mode='line'):
         self.run(A, lambda: None, -1, mode)
